@@ -167,17 +167,24 @@ def _stats_history(a):
             try:
                 args.output_folder = tmp
                 info = types.SimpleNamespace(column_types=set())
+                crash = None
                 try:
                     core_utils.summarize_rare_counts(dict(core_ranking.GLOBAL_RARE_VALUE_STORAGE), args, core_ranking.GLOBAL_CARDINALITY_STORAGE.copy(), info)
-                    with open(os.path.join(tmp, 'rare_values.tsv'), encoding='utf-8', newline='') as fh:
+                except Exception as e:  # noqa: BLE001
+                    import traceback
+                    crash = {'error': f'{type(e).__name__}: {e}', 'trace': traceback.format_exc()[-600:]}
+                rp = os.path.join(tmp, 'rare_values.tsv')
+                if os.path.exists(rp):
+                    with open(rp, encoding='utf-8', newline='') as fh:
                         hdr, body = aggregate.parse_tsv(fh.read())
                     got = sorted([r[0], r[1], int(r[2])] for r in body if len(r) >= 3)
                     if got != final['rare']:
                         problems.append({'kind': 'rare-report', 'written': got[:5], 'exact': final['rare'][:5], 'threshold': thr})
-                except Exception as e:  # noqa: BLE001
-                    import traceback
-                    problems.append({'kind': 'rare-report-crash', 'error': f'{type(e).__name__}: {e}', 'rare_entries': len(final['rare']),
-                                     'trace': traceback.format_exc()[-600:]})
+                    elif crash:
+                        final['crash_after_report'] = crash['error']      # outside the statement (sparsity summary), counted only
+                else:
+                    problems.append({'kind': 'rare-report-missing', 'error': (crash or {}).get('error'), 'rare_entries': len(final['rare']),
+                                     'trace': (crash or {}).get('trace')})
             finally:
                 shutil.rmtree(tmp, ignore_errors=True)
     return {'problems': problems[:3], 'final': final, 'crossing_batches': crossing, 'batches': len([c for c in cuts if c])}
